@@ -42,13 +42,16 @@ Wr(e) == CASE e = "pa" -> <<"a", "\n">>            \* print('a')
            [] e = "sp" -> <<" ", " ", "\n">>        \* print('  ')
            [] e = "pnn" -> <<"\n", "\n">>           \* print('\n')
            [] e = "in" -> <<"p", "\n">>             \* input('p') echoes the prompt and a newline
+           [] e = "ina" -> <<"p", "\n">>            \* ask('p') where the module did `ask = input` when it was RUN: inside a later
+                                                    \* call() this is the input function of an EARLIER execution; what it
+                                                    \* consumes still belongs to the execution that is running now
            [] e = "st" -> <<>>                      \* sys.settrace(None): student code drops the trace function
            [] e = "cb" -> <<>>                      \* hook(): an instructor-supplied callable that calls back into the sandbox
                                                     \* (call('cbf')) while this execution is still running: a NESTED execution
            [] e = "im" -> <<>>                      \* import helper_mod: a second student file, executed by Sandbox._import
                                                     \* inside the running execution (a nested entry point); it prints nothing
            [] OTHER -> <<>>
-Reads(e) == e = "in"
+Reads(e) == e \in {"in", "ina"}
 
 \* run the effects of a program against an input queue: text written, values consumed, remaining queue
 RECURSIVE RunEffs(_, _, _, _)
